@@ -8,6 +8,7 @@ CHECK = dict(
         "a plain-UDP query is at most 512 octets (the production read buffer, ConfigDNS.UDPSize is never set by dnssvc); a DNSCrypt-UDP query at most ~1100",
         "the handler returns the TCP keep-alive option only to a query that carried it (conforming upstream); handler responses carry no TSIG and at most one OPT",
         "math/rand's global source is seeded per case from a rapid draw so that the padding length is a function of the case (rand.Seed; GODEBUG=randseednop=0 is set for newer toolchains)",
+        "cmd unit: the configuration every listener was constructed with is read from the unexported conf field of the dnsserver servers inside the service built by builder.initDNS (vpeek); listeners are constructed, never started",
     ],
     units=[
         dict(name="dnsserver", dir="internal/dnsserver", src="C08/dnsserver", runs=[
@@ -22,6 +23,9 @@ CHECK = dict(
         dict(name="stack", dir="internal/dnssvc", src="C08/stack", runs=[
             dict(name="udp-limit", run="^TestVerifC08Stack$", quick=400, thorough=20000, shards_thorough=4),
             dict(name="stream", run="^TestVerifC08StackStream$", quick=300, thorough=12000, shards_thorough=4),
+        ]),
+        dict(name="cmd", dir="internal/cmd", src="C08/cmd", runs=[
+            dict(name="dns-config", run="^TestVerifC08CmdDNS$", quick=300, thorough=12000, shards_quick=2, shards_thorough=6),
         ]),
     ],
 )
